@@ -491,6 +491,41 @@ def rule_accel(chk):
                detail_ok='c_integrator.step(time, dt)')
 
 
+def rule_compile_model(chk):
+    """SPHCompiler.compile interpreted (E8) on a model problem with three acceleration evaluators (a multi-stage integrator) whose generated code is *identical*: every
+    evaluator object gets its own compiled counterpart - setup_compiled_module of its own helper, once, with a module built from its own code; none is handed the compiled
+    object of another (constructor arguments of the equations live in the instances, not in the code)"""
+    from verif_static import emit as EM, absint as AI
+    SCF = 'pysph/sph/sph_compiler.py'
+    fn = M.find_method(M.py(SCF), 'SPHCompiler', 'compile')
+    log = []
+
+    def helper(k):
+        obj = EM.mock(name='eval%d' % k, c_acceleration_eval=('compiled', k), set_compiled_object=lambda i, a, kw, n, e: log.append(('set_compiled_object', k, a[0] if a else None)))
+        return EM.mock(object=obj, get_code=lambda i, a, kw, n, e: 'SAME GENERATED CODE', compile=lambda i, a, kw, n, e: log.append(('compile', k, a[0] if a else None)) or ('module', k, len(log)),
+                       setup_compiled_module=lambda i, a, kw, n, e: log.append(('setup', k, a[0] if a else None)))
+    try:
+        it = EM.interpreter()
+        hs = [helper(k) for k in range(3)]
+        ih = EM.mock(get_code=lambda i, a, kw, n, e: ' INTEGRATOR', setup_compiled_module=lambda i, a, kw, n, e: log.append(('setup-integrator', a[0] if a else None)))
+        comp = EM.instance(it, SCF, 'SPHCompiler', module=None, acceleration_eval_helpers=hs, acceleration_evals=[h.attrs['object'] for h in hs], integrator=EM.mock(name='integrator'),
+                           integrator_helper=ih, backend='cython')
+        EM.call(it, comp, 'compile')
+        bad = None
+        for k in range(3):
+            setups = [l for l in log if l[0] == 'setup' and l[1] == k]
+            foreign = [l for l in log if l[0] == 'set_compiled_object' and l[1] == k]
+            if len(setups) != 1 or foreign:
+                bad = bad or 'evaluator %d: setup_compiled_module called %d time(s)%s' % (k, len(setups), ', handed the compiled object %s of another evaluator' % (foreign[0][2],) if foreign else '')
+            elif not (isinstance(setups[0][2], tuple) and setups[0][2][0] == 'module'):
+                bad = bad or 'evaluator %d is set up with %r, not with a compiled module' % (k, setups[0][2])
+        chk.decide(bad is None, 'compiled-api-forwards', 'every-evaluator-gets-its-own-compiled-object', node=fn, file=SCF, func='SPHCompiler.compile',
+                   detail_bad='three evaluators with identical generated code: %s - stage k of a multi-stage integrator then evaluates with the equation objects (coefficients) of another stage' % bad,
+                   detail_ok='compile + setup_compiled_module for each of three evaluators with identical code')
+    except (AI.Unsupported, AI.Raised) as ex:
+        chk.undecided('compiled-api-forwards', 'every-evaluator-gets-its-own-compiled-object', node=fn, file=SCF, func='SPHCompiler.compile', detail='not interpretable on the model: %s' % ex)
+
+
 def main(chk):
     chk.explanation = ('The Mako template of the compiled integrator is lowered to the shape of the Cython it emits (all branches '
                        'taken, expressions as placeholders), parsed with Cython\'s parser and analysed like ordinary code: stage '
@@ -502,6 +537,7 @@ def main(chk):
     rule_helper(chk)
     rule_integrators(chk)
     rule_accel(chk)
+    rule_compile_model(chk)
     chk.assume('Cython executes the emitted module as written; stepper arithmetic is not analysed')
 
 
